@@ -6,7 +6,7 @@
    mkpw <alg> <password> <salt> <iterations> <length> <cost> <oracle> => password record
    The oracle column carries the values of the hash functions (computed by the
    driver with golang.org/x/crypto) that the model may ask for:
-     p:<pw>:<salt>:<iter>:<len>:<key>   b:<hash>:<pw>:<m|x|e>   g:<pw>:<cost>:<hash>
+     p:<pw>:<salt>:<iter>:<len>:<key>   b:<hash>:<pw>:<m|x|e>   g:<pw>:<cost>:<hash|!>
    Asking for a value that is not listed is a MODEL-ERROR. *)
 open Util
 open Registry
@@ -82,7 +82,7 @@ let password_token (p : Auth.password) : string =
 type oracles = {
   pb : (string * string * int * int, string) Hashtbl.t;
   bc : (string * string, Auth.bcrypt_out) Hashtbl.t;
-  gen : (string * int, string) Hashtbl.t }
+  gen : (string * int, string option) Hashtbl.t }
 
 let parse_oracle (s : string) : oracles =
   let o = { pb = Hashtbl.create 4; bc = Hashtbl.create 4; gen = Hashtbl.create 4 } in
@@ -95,7 +95,9 @@ let parse_oracle (s : string) : oracles =
            Hashtbl.replace o.bc (unhex hash, unhex pw)
              (match r with "m" -> Auth.BMatch | "x" -> Auth.BMismatch | _ -> Auth.BError)
         | ["g"; pw; cost; key] ->
-           Hashtbl.replace o.gen (unhex pw, int_of_string cost) (unhex key)
+           (* ! = the library refuses to hash this password *)
+           Hashtbl.replace o.gen (unhex pw, int_of_string cost)
+             (if key = "!" then None else Some (unhex key))
         | _ -> failwith ("auth: bad oracle entry " ^ e))
       (String.split_on_char ',' s);
   o
@@ -110,7 +112,8 @@ let bcrypt_of o = fun hash pw ->
   | None -> failwith "bcrypt value not supplied"
 let gen_of o = fun pw cost _salt ->
   match Hashtbl.find_opt o.gen (string_of_coq pw, int_of_z cost) with
-  | Some r -> coq_of_string r
+  | Some (Some r) -> Some (coq_of_string r)
+  | Some None -> None
   | None -> failwith "bcrypt hash not supplied"
 
 let match_class = function
@@ -166,7 +169,9 @@ let comp_auth : Registry.comp = fun params ->
        let a = match alg with
          | "pbkdf2" -> Auth.AlgPbkdf2 | "bcrypt" -> Auth.AlgBcrypt | "wildcard" -> Auth.AlgWildcard
          | _ -> failwith "auth: bad algorithm" in
-       password_token (Auth.make_password (pbkdf2_of o) (gen_of o) a (cs pw) (cs salt) (z iter) (z len) (z cost))
+       (match Auth.make_password (pbkdf2_of o) (gen_of o) a (cs pw) (cs salt) (z iter) (z len) (z cost) with
+        | Some p -> password_token p
+        | None -> "refused")
     | _ -> failwith ("auth: bad op " ^ String.concat " " toks)
 
 (* Component authiso: Model/AuthHeap.v with Init copying (copy = true).
